@@ -3,6 +3,8 @@
 //! BOUNDS: one call of try_unwrap / try_unique+into_inner / UniqueArc::into_inner /
 //!   unwrap_or_clone / TryFrom from an arbitrary valid state (count free in [1, isize::MAX-2]);
 //!   Drop/Clone-tracked payload with symbolic content, plus an over-aligned payload.
+//! BOUNDS: (real_history_*) a short history with no preset count: the co-owner is made, cloned and released through
+//!   another kind's own operations (OffsetArc, ArcUnion either arm, raw pointer, arc-swap pointer).
 //! ASSUME: alloc/dealloc logging stubs; count preset through the hook.
 //! OUTSIDE: racing unwrappers (weak-memory engine).
 use crate::ghost::*;
@@ -158,3 +160,37 @@ h!(q_refused_coowner_raw, refused_with_coowner::<Raw<Dt>>());
 h!(r0_refused_coowner_union2, refused_with_coowner::<U2<Dt>>());
 h!(r1_refused_coowner_union1, refused_with_coowner::<U1<Dt>>());
 h!(r2_refused_coowner_swap, refused_with_coowner::<Swp<Dt>>());
+
+
+// ---- no preset count: the other owner is a real handle of another kind, made / cloned / released through that
+//      kind's own operations. While it exists the value is not handed out; once it is gone it is, undestroyed.
+fn unwrap_real_history<K: Kind<P = Dt>>() {
+    let v: u8 = kani::any();
+    let a = Arc::new(Dt::new(0, v));
+    let o1 = K::from_arc(a.clone());
+    let other = o1.dup();
+    o1.release();
+    // owners: a, other
+    let a = match Arc::try_unwrap(a) {
+        Ok(_) => panic!("try_unwrap moved the value out although a handle of another kind still owns it"),
+        Err(a) => a,
+    };
+    let val = Arc::unwrap_or_clone(a);
+    assert!(clones() == 1 && val.v == v, "unwrap_or_clone on a shared value must clone, exactly once");
+    assert!(ledger_zero(), "the shared value was destroyed although a handle of another kind still owns it");
+    assert!(other.count() == 1 && unsafe { (*(other.data_addr() as *const Dt)).v } == v);
+    // now the other kind's handle is the sole owner: back to an Arc, and out
+    let back = other.into_arc();
+    match Arc::try_unwrap(back) {
+        Ok(orig) => {
+            assert!(orig.v == v && orig.id == 0 && ledger_zero(), "the value handed out was destroyed or is not the original");
+            assert!(n_live() == 0, "the allocation must be released when the value is moved out");
+        }
+        Err(_) => panic!("a sole owner was refused"),
+    }
+}
+h!(q_real_history_offset, unwrap_real_history::<OffsetArc<Dt>>());
+h!(q_real_history_union2, unwrap_real_history::<U2<Dt>>());
+h!(r0_real_history_raw, unwrap_real_history::<Raw<Dt>>());
+h!(r1_real_history_union1, unwrap_real_history::<U1<Dt>>());
+h!(r2_real_history_swap, unwrap_real_history::<Swp<Dt>>());
